@@ -68,11 +68,19 @@ theorem bary4_mom (a b c d p : V3 ℝ) :
   simp only [tetDet, add_eq, sub_eq, mul_eq]
   refine ⟨?_, ?_, ?_⟩ <;> ring
 
+/-- the shifted point of `ref_node_bary3d` is the query point moved along the triangle normal (by the orthogonal
+    amount when the division guard passes, by the raw dot product otherwise) -/
 theorem bary3dPoint_eq (x0 x1 x2 p : V3 ℝ) :
-    bary3dPoint x0 x1 x2 p =
-      vadd p (vsmul (-(vdot (V3.sub p x0) (triNormal x0 x1 x2))) (triNormal x0 x1 x2)) := by
-  simp only [bary3dPoint, dot_eq, vdot, vadd, vsmul, V3.sub, add_eq, sub_eq, mul_eq]
-  ext <;> (simp only []; ring)
+    ∃ s : ℝ, bary3dPoint x0 x1 x2 p = vadd p (vsmul s (triNormal x0 x1 x2)) := by
+  unfold bary3dPoint
+  simp only []
+  split
+  · refine ⟨-(vdot (V3.sub p x0) (triNormal x0 x1 x2) / vdot (triNormal x0 x1 x2) (triNormal x0 x1 x2)), ?_⟩
+    simp only [dot_eq, vdot, vadd, vsmul, V3.sub, add_eq, sub_eq, mul_eq, div_eq]
+    ext <;> (simp only []; ring)
+  · refine ⟨-(vdot (V3.sub p x0) (triNormal x0 x1 x2)), ?_⟩
+    simp only [dot_eq, vdot, vadd, vsmul, V3.sub, add_eq, sub_eq, mul_eq]
+    ext <;> (simp only []; ring)
 
 theorem bary3dRaw_total (x0 x1 x2 q : V3 ℝ) :
     (bary3dRaw x0 x1 x2 q).b0 + (bary3dRaw x0 x1 x2 q).b1 + (bary3dRaw x0 x1 x2 q).b2 =
